@@ -19,6 +19,7 @@ import (
 	"os"
 	"reflect"
 	"runtime"
+	"slices"
 	"sync"
 	"testing"
 
@@ -202,6 +203,11 @@ func buildRequest(rid int, q Req) *kmip.RequestMessage {
 		if it.Out == "unrouted" {
 			bi.Operation = unroutedOp
 		}
+		if it.Out == "discover" {
+			// the built-in Discover Versions operation (not routed): the client names one or two versions
+			bi.Operation = kmip.OperationDiscoverVersions
+			bi.RequestPayload = &payloads.DiscoverVersionsRequestPayload{ProtocolVersion: discoverOffer(rid + i)}
+		}
 		if it.Out == "critical" {
 			bi.MessageExtension = &kmip.MessageExtension{VendorIdentification: "verif", CriticalityIndicator: true,
 				VendorExtension: nil}
@@ -217,6 +223,40 @@ func buildRequest(rid int, q Req) *kmip.RequestMessage {
 		msg.BatchItem = append(msg.BatchItem, bi)
 	}
 	return msg
+}
+
+var fiveVersions = []kmip.ProtocolVersion{kmip.V1_4, kmip.V1_3, kmip.V1_2, kmip.V1_1, kmip.V1_0}
+
+// discoverOffer: the versions the client names in a Discover Versions item (one version, or two in ascending order)
+func discoverOffer(k int) []kmip.ProtocolVersion {
+	if k%3 == 0 {
+		return []kmip.ProtocolVersion{fiveVersions[4-k%2], fiveVersions[k%3]}
+	}
+	return []kmip.ProtocolVersion{fiveVersions[k%5]}
+}
+
+// discoverAnswer: what the executor answers - the versions it supports that the client named, in the server's order of preference
+func discoverAnswer(offer []kmip.ProtocolVersion) []kmip.ProtocolVersion {
+	supported := fiveVersions
+	if gapConfig {
+		supported = []kmip.ProtocolVersion{kmip.V1_4, kmip.V1_0}
+	}
+	res := []kmip.ProtocolVersion{}
+	for _, v := range supported {
+		if slices.Contains(offer, v) {
+			res = append(res, v)
+		}
+	}
+	return res
+}
+
+// sameVersions: the same versions, in whatever order (the order of the answer is the executor's configuration, which is not part
+// of the batch semantics)
+func sameVersions(a, b []kmip.ProtocolVersion) bool {
+	a, b = slices.Clone(a), slices.Clone(b)
+	slices.SortFunc(a, ttlv.CompareVersions)
+	slices.SortFunc(b, ttlv.CompareVersions)
+	return slices.Equal(a, b)
 }
 
 var reasonNames = map[kmip.ResultReason]string{
@@ -247,6 +287,14 @@ func project(req *kmip.RequestMessage, resp *kmip.ResponseMessage) ([]RespItem, 
 			st = "Success"
 			if bi.ResponsePayload == nil {
 				st = "SuccessNoPayload"
+			}
+			if k < len(req.BatchItem) {
+				if dq, ok := req.BatchItem[k].RequestPayload.(*payloads.DiscoverVersionsRequestPayload); ok {
+					dr, ok := bi.ResponsePayload.(*payloads.DiscoverVersionsRequestPayload)
+					if !ok || !sameVersions(dr.ProtocolVersion, discoverAnswer(dq.ProtocolVersion)) {
+						st = "SuccessWrongDiscoverAnswer"
+					}
+				}
 			}
 		}
 		rs, ok := reasonNames[bi.ResultReason]
@@ -410,7 +458,7 @@ func nzr(a [][2]any) [][2]any {
 	return a
 }
 
-var allOutcomes = []string{"success", "successSetsId", "successClearsId", "typedError", "plainError", "panic", "unrouted", "critical"}
+var allOutcomes = []string{"success", "successSetsId", "successClearsId", "discover", "typedError", "plainError", "panic", "unrouted", "critical"}
 var allOpts = []string{"unset", "Continue", "Stop", "Undo"}
 
 func randReq(r *rand.Rand, maxItems int, rejectPct int) Req {
